@@ -8,6 +8,9 @@ C08, `|y| ≤ 1418`) the reduced argument `z = x - y/2` has `|z.hi| ≤ 1/4` bec
 and `z.hi = RN(x - y/2)`, `|x - y/2| ≤ 1/4`, and `1/4` is a double.  The proofs are in `TFV.Lemmas.PanicFree`.
 -/
 import TFV.Lemmas.PanicFree
+import TFV.Properties.C03x
+import TFV.Properties.C04x
+import TFV.Properties.C05x
 
 set_option exponentiation.threshold 3000
 
@@ -99,7 +102,347 @@ example :
 example : (arithmetic.impl_Div_TwoFloat_for_f64.div (f64lit 0x3ff0000000000000)
     (explog.exp_half.go 1 (⟨1439⟩ : I32))).hi = F64.nan := by decide +kernel
 
-/-! ### `exp2(k) = 2^k` exactly (both words), `k` integer
+
+/-! ### `exp2(k) = 2^k` for EVERY integer `k`, by proof (exact values; the sign of the zero low word is not tracked)
+
+The argument reduction `x - round(x)` is exactly zero, the polynomial at zero returns its constant coefficient
+`(1, 0)` through eleven exact Horner steps, the nine squarings keep `(1, 0)`, and `mul_pow2` multiplies by the double
+`2^k` built from its bit pattern. -/
+
+theorem from_bits_nat_small (P : Nat) (h : P < 2 ^ 52) : F64.from_bits_nat P = fin false P := by
+  unfold F64.from_bits_nat
+  have hP : P < 4503599627370496 := by norm_num at h; exact h
+  simp only [Nat.reducePow]
+  have a : P / 4503599627370496 = 0 := by omega
+  have b : P / 9223372036854775808 = 0 := by omega
+  have c : P % 4503599627370496 = P := by omega
+  simp [a, b, c]
+
+theorem from_bits_nat_normal (e : Nat) (h1 : 1 ≤ e) (h2 : e ≤ 2046) :
+    F64.from_bits_nat (e * 2 ^ 52) = fin false (2 ^ 52 * 2 ^ (e - 1)) := by
+  unfold F64.from_bits_nat
+  simp only [Nat.reducePow]
+  have a1 : e * 4503599627370496 / 9223372036854775808 = 0 := by omega
+  have a2 : e * 4503599627370496 / 4503599627370496 = e := by omega
+  have a3 : e * 4503599627370496 % 4503599627370496 = 0 := by omega
+  have a4 : e % 2048 = e := by omega
+  have n1 : ¬ e = 0 := by omega
+  have n2 : ¬ e = 2047 := by omega
+  simp [a1, a2, a3, a4, n1, n2]
+
+/-- `mul_pow2(v, k)` is one multiplication by the double `2^k` for `-1074 ≤ k ≤ 1023` -/
+theorem mul_pow2_eq (v : F64) (k : Int) (h1 : -1074 ≤ k) (h2 : k ≤ 1023) :
+    explog.mul_pow2 v (⟨k⟩ : I32) = F64.mul v (fin false (2 ^ (k + 1074).toNat)) := by
+  show explog.mul_pow2.loop1 (2099999 + 1) v (⟨k⟩ : I32) = _
+  rw [explog.mul_pow2.loop1]
+  have n1 : ¬ ((⟨k⟩ : I32) <. (-1074 : I32)) = true := fun hc => by
+    have := (PF.ilt_iff _ _).1 hc
+    have : k < -1074 := this
+    omega
+  rw [if_neg n1]
+  by_cases c2 : k < -1022
+  · rw [if_pos ((PF.ilt_iff (⟨k⟩ : I32) (-1022 : I32)).2 c2)]
+    show F64.mul v (F64.from_bits ((1 : U64) <<< (⟨k + 1074⟩ : I32))) = _
+    congr 1
+    obtain ⟨j, hj⟩ : ∃ j : Nat, k + 1074 = (j : Int) := ⟨(k + 1074).toNat, by omega⟩
+    have hj52 : j < 52 := by omega
+    have hP : 2 ^ j < 2 ^ 52 := Nat.pow_lt_pow_right (by decide) hj52
+    show F64.from_bits_nat ((IntN.wrapV false 64 ((1 : Int) * ((2 ^ (k + 1074).toNat : Nat) : Int)) %
+      ((2 ^ 64 : Nat) : Int)).toNat) = _
+    rw [hj, Int.toNat_natCast]
+    generalize 2 ^ j = P at hP ⊢
+    unfold IntN.wrapV
+    have e64 : ((2 ^ 64 : Nat) : Int) = 18446744073709551616 := by decide
+    simp only [e64, Bool.false_and, Bool.false_eq_true, if_false, one_mul]
+    have : ((P : Int) % 18446744073709551616 % 18446744073709551616).toNat = P := by omega
+    rw [this]
+    exact from_bits_nat_small P hP
+  · have n2 : ¬ ((⟨k⟩ : I32) <. (-1022 : I32)) = true := fun hc => c2 ((PF.ilt_iff _ _).1 hc)
+    rw [if_neg n2, if_pos ((PF.ilt_iff (⟨k⟩ : I32) (1024 : I32)).2 (by show k < 1024; omega))]
+    show F64.mul v (F64.from_bits ((RCast.cast (⟨k + 1023⟩ : I32) : U64) <<< (52 : I32))) = _
+    congr 1
+    obtain ⟨e, he⟩ : ∃ e : Nat, k + 1023 = (e : Int) := ⟨(k + 1023).toNat, by omega⟩
+    have he1 : 1 ≤ e := by omega
+    have he2 : e ≤ 2046 := by omega
+    show F64.from_bits_nat ((IntN.wrapV false 64 (IntN.wrapV false 64 (k + 1023) * ((2 ^ (52 : Int).toNat : Nat) : Int)) %
+      ((2 ^ 64 : Nat) : Int)).toNat) = _
+    unfold IntN.wrapV
+    have e64 : ((2 ^ 64 : Nat) : Int) = 18446744073709551616 := by decide
+    have e52 : ((2 ^ (52 : Int).toNat : Nat) : Int) = 4503599627370496 := by decide
+    simp only [e64, e52, Bool.false_and, Bool.false_eq_true, if_false]
+    rw [he]
+    have : ((e : Int) % 18446744073709551616 * 4503599627370496 % 18446744073709551616 % 18446744073709551616).toNat
+        = e * 2 ^ 52 := by omega
+    rw [this, from_bits_nat_normal e he1 he2]
+    congr 1
+    have : (k + 1074).toNat = 52 + (e - 1) := by omega
+    rw [this, Nat.pow_add]
+
+
+/-- "value pair": valid, well-formed, with the given word values -/
+def IsP (t : TwoFloat) (h l : Int) : Prop := t.hi.toInt = h ∧ t.lo.toInt = l ∧ t.Valid ∧ t.WF
+
+theorem IsP.V {t : TwoFloat} {h l : Int} (p : IsP t h l) : t.V = h + l := by
+  unfold TwoFloat.V; rw [p.1, p.2.1]
+
+/-- `F64::round` of an integer-valued double is the identity -/
+theorem round_of_dvd (s : Bool) (n : Nat) (h : F64.unit ∣ n) : F64.round (fin s n) = fin s n := by
+  obtain ⟨c, rfl⟩ := h
+  unfold F64.round
+  have hU := F64.unit_pos
+  have e : F64.unit * c / F64.unit * F64.unit = F64.unit * c := by
+    rw [Nat.mul_div_cancel_left _ hU, Nat.mul_comm]
+  simp only [e, Nat.sub_self, Nat.mul_zero]
+  rw [if_neg (by omega)]
+
+/-- the Horner loop with a zero argument returns (the words of) the last coefficient it adds -/
+theorem fold_zero_arg (r : TwoFloat) (hr : r.Valid) (hr0 : r.V = 0) :
+    ∀ (rest : List TwoFloat) (init last : TwoFloat), init.Valid ∧ init.WF →
+      (∀ t ∈ rest ++ [last], t.Valid ∧ t.WF) →
+      IsP ((rest ++ [last]).foldl (fun a n => arithmetic.impl_Add_rTwoFloat_for_TwoFloat.add
+        (arithmetic.impl_Mul_TwoFloat_for_TwoFloat.mul r a) n) init) last.hi.toInt last.lo.toInt := by
+  intro rest
+  induction rest with
+  | nil =>
+    intro init last hi hl
+    have hlast := hl last (by simp)
+    simp only [List.nil_append, List.foldl_cons, List.foldl_nil]
+    obtain ⟨-, -, m3, m4, -⟩ := C04x.mul_tt_zero_left r init hr hr0 hi.1.1 hi.1.2.1
+    obtain ⟨a1, a2, -, a4, a5⟩ := C03x.add_tt_zero_left _ last m4 m3 hlast.1 hlast.2
+    exact ⟨a1, a2, a4, a5⟩
+  | cons t rest ih =>
+    intro init last hi hl
+    simp only [List.cons_append, List.foldl_cons]
+    apply ih
+    · have ht := hl t (by simp)
+      obtain ⟨-, -, m3, m4, -⟩ := C04x.mul_tt_zero_left r init hr hr0 hi.1.1 hi.1.2.1
+      obtain ⟨-, -, -, a4, a5⟩ := C03x.add_tt_zero_left _ t m4 m3 ht.1 ht.2
+      exact ⟨a4, a5⟩
+    · intro u hu; exact hl u (by simp at hu ⊢; tauto)
+
+
+theorem FRAC_FACT_valid : ∀ t ∈ explog.FRAC_FACT, t.Valid ∧ t.WF := by decide +kernel
+theorem LN_2_ok : consts.LN_2.hi.is_finite = true ∧ consts.LN_2.lo.is_finite = true := by decide +kernel
+theorem lit_512 : (f64lit 0x4080000000000000).is_finite = true ∧ (f64lit 0x4080000000000000).toInt ≠ 0 := by
+  decide +kernel
+theorem lit_m1074 : F64.neg (f64lit 0x4090c80000000000) = fin true (1074 * F64.unit) := by decide +kernel
+theorem lit_1023 : f64lit 0x408ff80000000000 = fin false (1023 * F64.unit) := by decide +kernel
+theorem FRAC_FACT_cons :
+    explog.FRAC_FACT = ⟨f64lit 0x3ff0000000000000, f64lit 0x0000000000000000⟩ :: explog.FRAC_FACT.tail := rfl
+theorem c0_words : (f64lit 0x3ff0000000000000).toInt = (F64.unit : Int) ∧ (f64lit 0x0000000000000000).toInt = 0 := by
+  decide +kernel
+
+theorem sq_one {a : TwoFloat} (h : IsP a (F64.unit : Int) 0) :
+    IsP (arithmetic.impl_Mul_TwoFloat_for_TwoFloat.mul a a) (F64.unit : Int) 0 := by
+  obtain ⟨p1, p2, -, p4, p5⟩ := C04x.mul_tt_one_right a a h.2.2.1 h.2.2.2 h.2.2.1.1 h.2.2.1.2.1 h.1 h.2.1
+  exact ⟨p1.trans h.1, p2.trans h.2.1, p4, p5⟩
+
+
+/-- the nine squarings `r1 = r1 * r1` of `exp2` -/
+def sq9 (p : TwoFloat) : TwoFloat :=
+  let r1 := arithmetic.impl_Mul_TwoFloat_for_TwoFloat.mul p p
+  let r1 := arithmetic.impl_Mul_TwoFloat_for_TwoFloat.mul r1 r1
+  let r1 := arithmetic.impl_Mul_TwoFloat_for_TwoFloat.mul r1 r1
+  let r1 := arithmetic.impl_Mul_TwoFloat_for_TwoFloat.mul r1 r1
+  let r1 := arithmetic.impl_Mul_TwoFloat_for_TwoFloat.mul r1 r1
+  let r1 := arithmetic.impl_Mul_TwoFloat_for_TwoFloat.mul r1 r1
+  let r1 := arithmetic.impl_Mul_TwoFloat_for_TwoFloat.mul r1 r1
+  let r1 := arithmetic.impl_Mul_TwoFloat_for_TwoFloat.mul r1 r1
+  arithmetic.impl_Mul_TwoFloat_for_TwoFloat.mul r1 r1
+
+/-- the general branch of `exp2`, with the intermediate values as arguments -/
+def exp2Tail (kf : F64) (p : TwoFloat) : TwoFloat :=
+  if kf ==. (f64lit 0x0000000000000000) then sq9 p
+  else arithmetic.fast_two_sum (explog.mul_pow2 (sq9 p).hi (RCast.cast kf : I32))
+    (explog.mul_pow2 (sq9 p).lo (RCast.cast kf : I32))
+
+theorem exp2_unfold (x : TwoFloat) :
+    TwoFloat.exp2 x =
+      if ROrd.isLt (base.impl_PartialOrd_f64_for_TwoFloat.partial_cmp x (F64.neg (f64lit 0x4090c80000000000))) then
+        convert.impl_From_f64_for_TwoFloat.from (f64lit 0x0000000000000000)
+      else if ROrd.isGe (base.impl_PartialOrd_f64_for_TwoFloat.partial_cmp x (f64lit 0x408ff80000000000)) then
+        ({ hi := F64.INFINITY, lo := F64.INFINITY } : TwoFloat)
+      else
+        exp2Tail (F64.round x.hi)
+          (polyFold (List.take 12 (List.drop 0 explog.FRAC_FACT))
+            (fun a n => arithmetic.impl_Add_rTwoFloat_for_TwoFloat.add
+              (arithmetic.impl_Mul_TwoFloat_for_TwoFloat.mul
+                (arithmetic.impl_Div_f64_for_TwoFloat.div
+                  (arithmetic.impl_Mul_TwoFloat_for_TwoFloat.mul
+                    (arithmetic.impl_Sub_f64_for_TwoFloat.sub x (F64.round x.hi)) consts.LN_2)
+                  (f64lit 0x4080000000000000)) a) n)) := rfl
+
+theorem sq9_one {p : TwoFloat} (h : IsP p (F64.unit : Int) 0) : IsP (sq9 p) (F64.unit : Int) 0 :=
+  sq_one (sq_one (sq_one (sq_one (sq_one (sq_one (sq_one (sq_one (sq_one h))))))))
+
+/-- **`exp2` at an integer argument**: for every valid pair `x` whose value is the integer `k`,
+`-1074 ≤ k ≤ 1022` (high word `k`, low word a zero of either sign), `exp2 x` is a valid pair whose high word has
+the value `2^k` and whose low word is a zero (exact values; the sign of that zero is not tracked) -/
+theorem exp2_int_value_gen (x : TwoFloat) (k : Int) (hp : IsP x (k * (F64.unit : Int)) 0)
+    (h1 : -1074 ≤ k) (h2 : k ≤ 1022) :
+    IsP (TwoFloat.exp2 x) ((2 ^ (k + 1074).toNat : Nat) : Int) 0 := by
+  obtain ⟨hKi, hxl, hxv, hxw⟩ := hp
+  have hKf : x.hi.is_finite = true := hxv.1
+  have hKw : x.hi.WF := hxw.1
+  have hxV : x.V = k * (F64.unit : Int) := by
+    unfold TwoFloat.V; rw [hKi, hxl, add_zero]
+  rw [exp2_unfold]
+  -- the two range tests
+  have c1 : ROrd.isLt (base.impl_PartialOrd_f64_for_TwoFloat.partial_cmp x
+      (F64.neg (f64lit 0x4090c80000000000))) = false := by
+    rw [lit_m1074, partial_cmp_tf_exact_of F64.roundFacts hxv
+      (show (fin true (1074 * F64.unit)).WF by decide +kernel) rfl, Bool.eq_false_iff]
+    intro hc
+    have := ROrd.isLt_ofInts.1 hc
+    rw [hxV] at this
+    have e : (fin true (1074 * F64.unit)).toInt = -1074 * (F64.unit : Int) := by
+      show -((1074 * F64.unit : Nat) : Int) = _; push_cast; ring
+    rw [e] at this
+    have hU : (0 : Int) < F64.unit := by exact_mod_cast F64.unit_pos
+    nlinarith
+  have c2 : ROrd.isGe (base.impl_PartialOrd_f64_for_TwoFloat.partial_cmp x
+      (f64lit 0x408ff80000000000)) = false := by
+    rw [lit_1023, partial_cmp_tf_exact_of F64.roundFacts hxv
+      (show (fin false (1023 * F64.unit)).WF by decide +kernel) rfl, Bool.eq_false_iff]
+    intro hc
+    have := ROrd.isGe_ofInts.1 hc
+    rw [hxV] at this
+    have e : (fin false (1023 * F64.unit)).toInt = 1023 * (F64.unit : Int) := by
+      show ((1023 * F64.unit : Nat) : Int) = _; push_cast; ring
+    rw [e] at this
+    have hU : (0 : Int) < F64.unit := by exact_mod_cast F64.unit_pos
+    nlinarith
+  rw [c1, c2, if_neg Bool.false_ne_true, if_neg Bool.false_ne_true]
+  -- kf = round(hi) = hi
+  have hround : F64.round x.hi = x.hi := by
+    obtain ⟨s, n, hsn⟩ := is_finite_iff.mp hKf
+    rw [hsn] at hKi ⊢
+    apply round_of_dvd
+    have := congrArg Int.natAbs hKi
+    rw [natAbs_toInt_fin, Int.natAbs_mul, Int.natAbs_natCast] at this
+    rw [this]; exact Dvd.intro_left _ rfl
+  rw [hround]
+  -- d = x - kf = 0
+  have hd : IsP (arithmetic.impl_Sub_f64_for_TwoFloat.sub x (x.hi)) 0 0 := by
+    have hS : x.hi.toInt - (x.hi).toInt = 0 := by ring
+    have e0 : x.hi.toInt - (x.hi).toInt + x.lo.toInt = 0 := by rw [hS, hxl]; ring
+    have := sub_tf_isV (IsV.of_valid hxv) (IsVal.of_finite hKf) hxw hKw
+      (by rw [hS]; exact repI_zero) (by rw [hS]; exact abs_zero_le_maxFin)
+      (by rw [e0, rnI_zero]; exact abs_zero_le_maxFin)
+      (by rw [e0, rnI_zero, hS, sub_zero]; exact repI_zero)
+      (by rw [e0, rnI_zero, hS, sub_zero]; exact abs_zero_le_maxFin)
+    rw [e0, rnI_zero, sub_zero] at this
+    have hp := this.package (sub_tf_WF x _) (by rw [add_zero, rnI_zero])
+    exact ⟨hp.1, hp.2.1, hp.2.2.2.1, hp.2.2.2.2⟩
+  -- r = d * LN_2 / 512 = 0
+  obtain ⟨-, -, m3, m4, -⟩ := C04x.mul_tt_zero_left _ consts.LN_2 hd.2.2.1 (by rw [hd.V]; ring) LN_2_ok.1 LN_2_ok.2
+  obtain ⟨-, -, r3, r4, -⟩ := C05x.div_tf_zero _ (f64lit 0x4080000000000000) m4 m3 lit_512.1 lit_512.2
+  generalize hr : arithmetic.impl_Div_f64_for_TwoFloat.div
+    (arithmetic.impl_Mul_TwoFloat_for_TwoFloat.mul (arithmetic.impl_Sub_f64_for_TwoFloat.sub x (x.hi))
+      consts.LN_2) (f64lit 0x4080000000000000) = r
+  have r3' : r.V = 0 := by rw [← hr]; exact r3
+  have r4' : r.Valid := by rw [← hr]; exact r4
+  -- the polynomial: value of the constant coefficient (1, 0)
+  have hpoly : IsP (polyFold (List.take 12 (List.drop 0 explog.FRAC_FACT))
+      (fun a n => arithmetic.impl_Add_rTwoFloat_for_TwoFloat.add (arithmetic.impl_Mul_TwoFloat_for_TwoFloat.mul r a) n))
+      (F64.unit : Int) 0 := by
+    unfold polyFold
+    have hl : (List.take 12 (List.drop 0 explog.FRAC_FACT)).reverse
+        = (List.take 11 explog.FRAC_FACT.tail).reverse ++ [⟨f64lit 0x3ff0000000000000, f64lit 0x0000000000000000⟩] := by
+      rw [List.drop_zero]
+      conv_lhs => rw [FRAC_FACT_cons]
+      rw [List.take_succ_cons, List.reverse_cons]
+    rw [hl]
+    have hmem : ∀ t ∈ (List.take 11 explog.FRAC_FACT.tail).reverse, t.Valid ∧ t.WF := fun t ht =>
+      FRAC_FACT_valid t (List.mem_of_mem_tail (List.mem_of_mem_take (List.mem_reverse.1 ht)))
+    have hc0 : (⟨f64lit 0x3ff0000000000000, f64lit 0x0000000000000000⟩ : TwoFloat).Valid ∧
+        (⟨f64lit 0x3ff0000000000000, f64lit 0x0000000000000000⟩ : TwoFloat).WF :=
+      FRAC_FACT_valid _ (by rw [FRAC_FACT_cons]; exact List.mem_cons_self ..)
+    have hne : (List.take 11 explog.FRAC_FACT.tail).reverse ≠ [] := by decide
+    generalize (List.take 11 explog.FRAC_FACT.tail).reverse = rv at hmem hne
+    cases rv with
+    | nil => exact absurd rfl hne
+    | cons init mid =>
+      have := fold_zero_arg r r4' r3' mid init ⟨f64lit 0x3ff0000000000000, f64lit 0x0000000000000000⟩
+        (hmem init (List.mem_cons_self ..))
+        (fun t ht => by
+          rcases List.mem_append.1 ht with h | h
+          · exact hmem t (List.mem_cons_of_mem _ h)
+          · rw [List.mem_singleton.1 h]; exact hc0)
+      rw [c0_words.1, c0_words.2] at this
+      exact this
+  generalize polyFold (List.take 12 (List.drop 0 explog.FRAC_FACT))
+      (fun a n => arithmetic.impl_Add_rTwoFloat_for_TwoFloat.add (arithmetic.impl_Mul_TwoFloat_for_TwoFloat.mul r a) n)
+      = p0 at hpoly ⊢
+  -- nine squarings of (1, 0)
+  have hs := sq9_one hpoly
+  unfold exp2Tail
+  generalize sq9 p0 = r1 at hs ⊢
+  -- the final scaling
+  by_cases hk0 : k = 0
+  · have : (x.hi ==. f64lit 0x0000000000000000) = true := by rw [hk0]; decide +kernel
+    rw [this, if_pos rfl, hk0]
+    have e : ((2 ^ ((0 : Int) + 1074).toNat : Nat) : Int) = (F64.unit : Int) := by
+      rw [F64.unit_eq]; rfl
+    rw [e]; exact hs
+  · have hne : (x.hi ==. f64lit 0x0000000000000000) = false := by
+      rw [req_eq, f64lit_zero, Bool.eq_false_iff]
+      intro hc
+      have := (eq_iff_toInt hKf rfl).1 hc
+      rw [hKi, toInt_zero] at this
+      have hU : (0 : Int) < F64.unit := by exact_mod_cast F64.unit_pos
+      rcases mul_eq_zero.1 this with h | h
+      · exact hk0 h
+      · omega
+    rw [hne]
+    simp only [Bool.false_eq_true, if_false]
+    have hcast : (RCast.cast (x.hi) : I32) = ⟨k⟩ := PF.cast_f64_i32 hKf hKi (by omega)
+    rw [hcast, mul_pow2_eq _ k h1 (by omega), mul_pow2_eq _ k h1 (by omega)]
+    -- exact products
+    obtain ⟨j, hj⟩ : ∃ j : Nat, (k + 1074).toNat = j := ⟨_, rfl⟩
+    have hj2 : j ≤ 2096 := by omega
+    rw [hj]
+    have hP : IsVal (fin false (2 ^ j)) ((2 ^ j : Nat) : Int) := ⟨rfl, rfl⟩
+    have hPrep : RepI ((2 ^ j : Nat) : Int) := repI_natCast.2 (rep_two_pow j)
+    have hPm : |((2 ^ j : Nat) : Int)| ≤ (maxFin : Int) := by
+      rw [abs_of_nonneg (Int.natCast_nonneg _)]
+      have : 2 ^ j ≤ 2 ^ 2096 := Nat.pow_le_pow_right (by decide) hj2
+      have h3 : 2 ^ 2096 ≤ maxFin := le_trans (Nat.pow_le_pow_right (by decide) (by decide))
+        two_pow_2097_le_maxFin
+      exact_mod_cast le_trans this h3
+    have hA : IsVal (F64.mul r1.hi (fin false (2 ^ j))) ((2 ^ j : Nat) : Int) :=
+      IsVal.mul_exact ⟨hs.2.2.1.1, hs.1⟩ hP (by ring) hPrep hPm
+    have hB : IsVal (F64.mul r1.lo (fin false (2 ^ j))) 0 :=
+      IsVal.mul_exact ⟨hs.2.2.1.2.1, hs.2.1⟩ hP (by ring) repI_zero abs_zero_le_maxFin
+    have hf := f2s_isV_exact hA hB (mul_WF _ _) (mul_WF _ _) (by rw [add_zero]; exact hPrep)
+      (by rw [add_zero]; exact hPm)
+    rw [add_zero] at hf
+    have hp := hf.package (fast_two_sum_WF _ _) (by rw [add_zero]; exact (rnI_of_repI hPrep).symm)
+    exact ⟨hp.1, hp.2.1, hp.2.2.2.1, hp.2.2.2.2⟩
+
+
+/-- **`exp2(k) = 2^k` for EVERY integer `-1074 ≤ k ≤ 1022`**, at the level of exact values: the result is a valid
+pair whose high word is the double `2^k` and whose low word is a zero (the sign of that zero is not tracked) -/
+theorem exp2_int_value (k : Int) (h1 : -1074 ≤ k) (h2 : k ≤ 1022) :
+    IsP (TwoFloat.exp2 ⟨F64.ofInt k, fin false 0⟩) ((2 ^ (k + 1074).toNat : Nat) : Int) 0 := by
+  obtain ⟨eK, hKi, hKw⟩ := F64.ofInt_exact_of_lt k (by omega)
+  have hKf : (F64.ofInt k).is_finite = true := by rw [eK]; rfl
+  exact exp2_int_value_gen _ k ⟨hKi, toInt_zero false, (pair_zero_spec hKf hKw).2.1, hKw, WF_zero false⟩ h1 h2
+
+/-- the high word is the double `2^k`, bit for bit -/
+theorem exp2_int_hi (k : Int) (h1 : -1074 ≤ k) (h2 : k ≤ 1022) :
+    (TwoFloat.exp2 ⟨F64.ofInt k, fin false 0⟩).hi = fin false (2 ^ (k + 1074).toNat) := by
+  obtain ⟨e1, -, hv, -⟩ := exp2_int_value k h1 h2
+  obtain ⟨s, n, hsn⟩ := is_finite_iff.mp hv.1
+  rw [hsn] at e1 ⊢
+  have hpos : 0 < 2 ^ (k + 1074).toNat := Nat.two_pow_pos _
+  cases s
+  · have : (n : Int) = ((2 ^ (k + 1074).toNat : Nat) : Int) := e1
+    rw [Int.natCast_inj.1 this]
+  · have : -(n : Int) = ((2 ^ (k + 1074).toNat : Nat) : Int) := e1
+    omega
+
+/-! ### `exp2(k) = (2^k, +0)` bit for bit (including the sign of the zero), by kernel evaluation
 
 Each instance is one kernel evaluation of the complete `exp2` (≈ 3–5 s); the full range `-1022 ≤ k ≤ 1022` (2045
 values) is therefore checked on the DOCUMENTED SUBSET below: the ends, the neighbourhood of 0, the powers near the
